@@ -50,6 +50,13 @@ def corr_full(ctx):
         ctx.diag.append("extracted whole-function model crashed: " + out2[-300:])
     ctx.compare("FlattenBatches, whole function (FlattenFull.flatten_full_stable / _hint)", os.path.join(d, "model.txt"),
                 os.path.join(d, "impl.txt"), os.path.join(d, "specs.jsonl"))
+    # the same run is a direct oracle for C12_succeeds: every generated file is valid, a failure of FlattenBatches
+    # is reported under the key of its cause
+    before = len(ctx.fails)
+    summ = ctx.read_jsonl(os.path.join(d, "full-oracle.jsonl"))
+    for f in ctx.fails[before:]:
+        f["input"] = f.get("case")
+    ctx.add_summary(summ, "FlattenBatches whole-function oracle")
     try:
         info = json.loads(out.strip().splitlines()[-1])
         ctx.cov.setdefault("distribution", {})["whole-function correspondence"] = info
@@ -131,6 +138,16 @@ def replay(path):
     if not ok:
         print(out[-2000:])
         return 1
+    try:
+        import json
+        d = json.load(open(path))
+        inp = d.get("input", d)
+        if isinstance(inp, dict) and "file" in inp:   # phase-6 recipe (harness/cmd/c12/full.go)
+            rc, out = C.sh([os.path.join(C.BIN, "c12"), "replayfull", path], timeout=600)
+            print(out)
+            return 1 if rc != 0 else 0
+    except (OSError, ValueError):
+        pass
     rc, out = C.sh([os.path.join(C.BIN, "c12"), "replay", path], timeout=600)
     print(out)
     return 1 if rc != 0 else 0
